@@ -108,7 +108,19 @@ def investigate(pid, suite, seed, count, binary, idx, nops, term, pos):
                 what = "property monitor %s fails on the implementation's trace of case %d (step %d)" % (mon, idx, codes[0] // 4 - 1)
         except core.CoqEvalError as e:
             payload["monitor_error"] = e.msg[-1000:]
-    return Finding("monitor" if failing else "correspondence", what, payload, failing_input=failing)
+    klass = None
+    if failing and suite.get("classify"):
+        try:
+            expr, names = suite["classify"]
+            codes = core.eval_cases(tag + "_cls", suite["imports"], expr, suite["case_type"], [(0, len(keep), min_term)], shards=1)
+            bits = codes[0] // 4
+            present = [n for b, n in names.items() if bits & b]
+            if present:
+                klass = present[0]
+                payload["known_classes_present"] = present
+        except core.CoqEvalError as e:
+            payload["classify_error"] = e.msg[-500:]
+    return Finding("monitor" if failing else "correspondence", what, payload, failing_input=failing, klass=klass)
 
 
 def main(pid, tier, seed, replay):
